@@ -164,6 +164,10 @@ func fromGo(v any) map[string]any {
 		}
 		return mk("l", "", q)
 	case reflect.Map:
+		if rv.Type().Key().Kind() != reflect.String {
+			// a dict of the WAMP data model comes back with string keys (wamp.Dict / map[string]any)
+			return mk("?", fmt.Sprintf("%T", v), nil)
+		}
 		keys := []string{}
 		vals := map[string]any{}
 		for _, k := range rv.MapKeys() {
@@ -336,6 +340,11 @@ func TestCodec(t *testing.T) {
 			t.Fatal(err)
 		}
 		idx++
+		if idx == 150 {
+			// an application may re-create the MessagePack handle (the documented way to register
+			// extensions late); what is decoded afterwards must be what was decoded before
+			serialize.InitMsgpackHandle()
+		}
 		l.Res = map[string]CodecRes{}
 		for name, ser := range serializers {
 			if l.Kind == "good" {
